@@ -66,6 +66,7 @@ def hunk_st(draw, max_body=8):
         'body': body,
         'context': draw(st.sampled_from([None, None, b'def f():', b'',
                                          b'@@ nested @@', b'class X:',
+                                         b'caf\xe9()', b'\xff\xfe',
                                          b'@@count += 1',
                                          b'SELECT @@ROWCOUNT'])),
         'omit_one': [draw(st.booleans()), draw(st.booleans())],
